@@ -390,6 +390,20 @@ def replay(pid, path):
     tier = body.get("tier", "quick")
     known, _ = load_known()
     known_sigs = {s for (p, s) in known if p == pid}
+    if body.get("probe"):
+        # a fixed (finding / regression) probe: re-run the probes and look for the same one
+        mod = prop_module(pid)
+        for sig, reproduces, text in mod.finding_probes():
+            if sig == body["probe"]:
+                print(json.dumps({"probe": sig, "reproduces": reproduces, "text": text}))
+                if reproduces and sig in known_sigs:
+                    print(f"KNOWN-FINDING: property={pid} {sig}")
+                    return 0
+                if reproduces:
+                    print(f"VIOLATION property={pid} replay={path}")
+                    return 1
+        print("replay: probe no longer reproduces")
+        return 0
     ctx, vio, disc, ch = execute(pid, tier, recorded=body["choices"])
     if vio is None:
         print(f"replay: no violation reproduced (discard={disc})")
